@@ -11,7 +11,7 @@ from lib import dbcsnap
 from lib import matrices as M
 
 PID = "C05"
-EXTRA_PROPS = ("Num", "C05b", "C05c", "C05d", "C05e", "C05f", "C05g", "C05h", "C05i")
+EXTRA_PROPS = ("Num", "C05b", "C05c", "C05d", "C05e", "C05f", "C05g", "C05h", "C05i", "C05j")
 RULE = ("case 'rt' = a generated matrix of DBC-expressible content (identifier names incl. names longer than 32 characters, ECU names "
         "of >= 2 characters, standard/extended ids, CAN FD and J1939 frames, simple and extended multiplexing, float signals, limits, "
         "start values inside the limits and on the raw grid, cycle times, value tables with quotes, comments over several lines with "
@@ -199,7 +199,8 @@ def cases_of(desc, rng=None):
         return
     yield {"op": "file", "c": {"m": desc, "blocks": r["blocks"]}}
     # the core of the writer (frame section, BO_TX_BU_ lines, frame comments, signal comments) against Model/DbcFile.lean writeCore
-    yield {"op": "core", "c": {"m": desc, "frames": core_frames(r["db"], r["blocks"])}}
+    yield {"op": "core", "c": {"m": desc, "frames": core_frames(r["db"], r["blocks"]),
+                               "ecus": [{"name": e.name[:32], "comment": (e.comment or None)} for e in r["db"].ecus]}}
     # the file as a whole against the reader model of Model/DbcFile.lean: as written, and damaged (lines inserted, dropped, cut)
     for variant in range(3):
         vseed = rng.randrange(1 << 30) if rng is not None else 1
@@ -406,10 +407,16 @@ def observe_core(c, r):
         return {"skipped": "comment encoding differs from the file encoding"}
     lines = r["lines"]
     out = list(section_lines(r))
+    kinds = ("CM_ BO_ ", "CM_ SG_ ")
+    if c.get("ecus") is not None:
+        # the `BU_:` line with the empty line behind it, and the comments of the ECUs (Model/DbcFile.lean writeCoreE)
+        k = next((i for i, l in enumerate(lines) if l.startswith("BU_:")), None)
+        out = (lines[k:k + 2] if k is not None else []) + out
+        kinds = ("CM_ BO_ ", "CM_ SG_ ", "CM_ BU_ ")
     out += [l for l in lines if l.startswith("BO_TX_BU_ ")]
     vals = [l for l in lines if re.match(r"VAL_ \d+ ", l)]
     vals += [l for l in lines if l.startswith("SIG_VALTYPE_ ")] + [l for l in lines if l.startswith("SIG_GROUP_ ")] + [l for l in lines if l.startswith("SG_MUL_VAL_ ")]
-    for kind in ("CM_ BO_ ", "CM_ SG_ "):
+    for kind in kinds:
         k = 0
         while k < len(lines):
             if lines[k].startswith(kind):
@@ -714,6 +721,12 @@ def features(case, impl):
             yield "exception"
     elif case["op"] == "core":
         yield "core:frames=%d" % min(len(c["frames"]), 5)
+        if c.get("ecus") is not None:
+            yield "core:ecus=%d" % min(len(c["ecus"]), 5)
+            if any(e["comment"] for e in c["ecus"]):
+                yield "core:ecu-comment"
+            if any(e["comment"] and "\n" in e["comment"] for e in c["ecus"]):
+                yield "core:ecu-comment-over-several-lines"
         if any(f["more"] for f in c["frames"]):
             yield "core:several-senders"
         if any(f["comment"] and "\n" in f["comment"] for f in c["frames"]) or any(s["comment"] and "\n" in s["comment"] for f in c["frames"] for s in f["sigs"]):
